@@ -1,5 +1,6 @@
 /- Helper lemmas for the layout calculus (C07). Core Lean only. -/
 import PrecondVerif.Model.Layout
+import PrecondVerif.Lemmas.Shapes
 namespace PrecondVerif.Layout
 open PrecondVerif.Shapes
 
@@ -364,20 +365,18 @@ theorem shardedInit_decl (c : Cfg) (ps : List (List Nat)) (L : ShardedLayout)
         simp [shardedSig, leafSig, countLeaf, f32Leaf, DT.name, localSig_eq_declLocal, List.map_map, Function.comp_def]
 
 
-theorem skeleton_specMom (c : Cfg) (s : List Nat) (p : List String) (hp : p.length = s.length) :
+theorem skeleton_specMom (c : Cfg) (s : List Nat) (p : List String) :
     skeleton (specMom c s p) = skeleton (qvSig (momQV c s)) := by
   unfold specMom momQV
   by_cases h : (c.memReduction && decide (s.length > 1)) = true
-  · have hlen : p.length > 1 := by
-      simp only [Bool.and_eq_true, decide_eq_true_eq] at h
-      omega
-    simp [h, hlen, skeleton, qvSig, f32Leaf, optLeafSig, leafSig, emptyList, DT.name]
+  · by_cases hlen : p.length > 1 <;>
+      simp [h, hlen, skeleton, qvSig, f32Leaf, optLeafSig, leafSig, emptyList, DT.name]
   · have h' : (c.memReduction && decide (s.length > 1)) = false := by simpa using h
     simp [h', skeleton, qvSig, plainQV, f32Leaf, optLeafSig, leafSig, emptyList, DT.name]
 
-theorem skeleton_specLocal (c : Cfg) (s : List Nat) (p : List String) (ix : Nat) (hp : p.length = s.length) :
+theorem skeleton_specLocal (c : Cfg) (s : List Nat) (p : List String) (ix : Nat) :
     skeleton (specLocal c s p ix) = skeleton (localSig (localOf c s ix)) := by
-  have hm := skeleton_specMom c s p hp
+  have hm := skeleton_specMom c s p
   unfold specLocal localSig localOf specTm
   simp only [skeleton, List.map_cons, List.map_nil, hm]
   cases h2 : c.fd <;> cases h2' : c.avgGrad <;>
@@ -386,21 +385,18 @@ theorem skeleton_specLocal (c : Cfg) (s : List Nat) (p : List String) (ix : Nat)
   simp [skeleton, avgGradOf, metricsOf, agSig, tmSig, qvSig, plainQV, f32Leaf, optLeafSig, leafSig,
     emptyList, masked, DT.name, h2, h2', h3, h4]
 
-/-- every parameter has a partition spec with one entry per dimension -/
-def specsFit : List (List Nat) → List (List String) → Prop
-  | [], _ => True
-  | _ :: _, [] => False
-  | s :: ss, p :: pp => p.length = s.length ∧ specsFit ss pp
+/-- one partition spec per parameter (of any length: `P()`, `P(None)`, one entry per dimension, ...) -/
+def specsFit (ps : List (List Nat)) (pspecs : List (List String)) : Prop := pspecs.length = ps.length
 
 theorem skeleton_locals (c : Cfg) : ∀ (ps : List (List Nat)) (pspecs : List (List String)) (k : Nat),
     specsFit ps pspecs →
     (((ps.zip pspecs).zip (indexStarts c ps k)).map fun x => skeleton (specLocal c x.1.1 x.1.2 x.2)) =
     ((ps.zip (indexStarts c ps k)).map fun x => skeleton (localSig (localOf c x.1 x.2)))
   | [], _, _, _ => by simp [indexStarts]
-  | s :: ss, [], _, h => by cases h
+  | s :: ss, [], _, h => by simp [specsFit] at h
   | s :: ss, p :: pp, k, h => by
-    obtain ⟨h1, h2⟩ := h
-    simp only [indexStarts, List.zip_cons_cons, List.map_cons, skeleton_specLocal c s p k h1,
+    have h2 : specsFit ss pp := by simpa [specsFit] using h
+    simp only [indexStarts, List.zip_cons_cons, List.map_cons, skeleton_specLocal c s p k,
       skeleton_locals c ss pp _ h2]
 
 theorem pspecDecl_skeleton (c : Cfg) (ps : List (List Nat)) (pspecs : List (List String)) (statSpec : List String)
@@ -569,5 +565,79 @@ theorem shardedStep_init (c : Cfg) (ps : List (List Nat)) (L : ShardedLayout) (h
         | none =>
           simp only [mapE_locals c ms hq ps 0 hbound, hsum, ← hglob, not_true_eq_false, if_false]
 
+
+/-! ### statistic sizes are positive when all parameter dimensions are -/
+
+theorem cartesian_mem : ∀ (ls : List (List Nat)) (t : List Nat), t ∈ cartesian ls →
+    ∀ x ∈ t, ∃ l ∈ ls, x ∈ l
+  | [], t, ht, x, hx => by simp [cartesian] at ht; subst ht; cases hx
+  | l :: ls, t, ht, x, hx => by
+    simp only [cartesian, List.mem_flatMap, List.mem_map] at ht
+    obtain ⟨a, ha, u, hu, rfl⟩ := ht
+    rcases List.mem_cons.mp hx with rfl | hx'
+    · exact ⟨l, List.mem_cons_self, ha⟩
+    · obtain ⟨l', hl', hxl⟩ := cartesian_mem ls u hu x hx'
+      exact ⟨l', List.mem_cons_of_mem _ hl', hxl⟩
+
+theorem blockPrecondDims_sub (pt : PType) (t : List Nat) : ∀ d ∈ blockPrecondDims pt t, d ∈ t := by
+  intro d hd
+  unfold blockPrecondDims at hd
+  cases pt with
+  | all => exact hd
+  | input =>
+    simp only [] at hd
+    split at hd
+    · exact hd
+    · exact List.mem_of_mem_take hd
+  | output =>
+    simp only [] at hd
+    split at hd
+    · exact hd
+    · exact List.mem_of_mem_drop hd
+
+theorem mergeSmallDims_pos (shape : List Nat) (m : Nat) (h : ∀ d ∈ shape, 0 < d) :
+    ∀ d ∈ mergeSmallDims shape m, 0 < d := by
+  intro d hd
+  unfold mergeSmallDims at hd
+  split at hd
+  · simp at hd; omega
+  · have := mergeGo_gt_one m shape 1 d hd; omega
+
+theorem tshape_pos (c : Cfg) (shape : List Nat) (h : ∀ d ∈ shape, 0 < d) : ∀ d ∈ tshape c shape, 0 < d := by
+  unfold tshape
+  split
+  · exact mergeSmallDims_pos shape c.mergeBlock h
+  · exact h
+
+theorem statDims_pos (c : Cfg) (shape : List Nat) (h : ∀ d ∈ shape, 0 < d) : ∀ d ∈ statDims c shape, 0 < d := by
+  intro d hd
+  unfold statDims at hd
+  split at hd
+  · cases hd
+  · simp only [pshapes, shapesForPreconditioners, List.mem_map, List.mem_flatMap] at hd
+    obtain ⟨p, ⟨t, ht, e, he, rfl⟩, rfl⟩ := hd
+    have het := blockPrecondDims_sub _ _ _ he
+    obtain ⟨l, hl, hel⟩ := cartesian_mem _ t ht _ het
+    simp only [splitAll, List.mem_map] at hl
+    obtain ⟨x, hx, rfl⟩ := hl
+    exact splitSizes_pos x c.blockSize (tshape_pos c shape h x hx) _ hel
+
+/-- all dimensions of all parameters are at least 1 -/
+def dimsPos (ps : List (List Nat)) : Prop := ∀ s ∈ ps, ∀ d ∈ s, 0 < d
+
+theorem allStatDims_pos (c : Cfg) (ps : List (List Nat)) (h : dimsPos ps) :
+    ∀ d ∈ ps.flatMap (statDims c), 0 < d := by
+  intro d hd
+  obtain ⟨s, hs, hds⟩ := List.mem_flatMap.mp hd
+  exact statDims_pos c s (h s hs) d hds
+
+theorem shardedSteps_init (c : Cfg) (ps : List (List Nat)) (L : ShardedLayout) (hq : c.quant2 = false)
+    (hpos : ∀ d ∈ ps.flatMap (statDims c), 0 < d) (h : shardedInit c ps = .ok L)
+    (hacc : rootReject c (globalDims c ps).2 .update = none) (k : Nat) :
+    shardedSteps c ps k L = .ok L := by
+  induction k with
+  | zero => rfl
+  | succ k ih =>
+    simp only [shardedSteps, shardedStep_init c ps L hq hpos h, hacc, bind, Except.bind, ih]
 
 end PrecondVerif.Layout
